@@ -190,3 +190,31 @@ let run_pipeline_shared (parts : string list) : string =
     (String.concat "," (List.map string_of_int (Array.to_list per))) !other (String.concat "," pay) spec
 
 let () = register "pipeline_shared" run_pipeline_shared
+
+(* ---------- kind: pipeline_arms (C05): the exchange enters its select with BOTH arms ready ---------- *)
+(* ev = <pre events>,S<cid>:l,R<k>.<mark>,<X|Y>,U<k>.  The model gives the outcome for either choice of the select
+   (pl_arms_outcomes … false = reply arm, true = connection arm); Go picks at random. *)
+let run_pipeline_arms (parts : string list) : string =
+  let f = fields parts in
+  let tcp = (fld f "net" = "tcp") in
+  let q0 = n_of_int (ifld f "q0") in
+  let evs = String.split_on_char ',' (fld f "ev") in
+  let n = List.length evs in
+  if n < 4 then failwith "pipeline_arms: short history";
+  let pre = List.filteri (fun i _ -> i < n - 4) evs in
+  let tail = Array.of_list (List.filteri (fun i _ -> i >= n - 4) evs) in
+  let s_ev = tail.(0) and r_ev = tail.(1) in
+  let cid = match String.index_opt s_ev ':' with
+    | Some i -> int_of_string (String.sub s_ev 1 (i - 1))
+    | None -> failwith "pipeline_arms: bad start" in
+  let (_, mark) = c05_split_dot (String.sub r_ev 1 (String.length r_ev - 1)) in
+  let pre_evs = c05_events_net tcp (String.concat "," pre) in
+  let show conn_first =
+    let (outs, closed) = pl_arms_outcomes tcp q0 pre_evs (n_of_int cid) (n_of_int mark) conn_first in
+    (String.concat "," (List.map (fun (o, _) -> c05_out o) outs),
+     String.concat "," (List.map (fun (_, w) -> c05_wid w) outs), closed) in
+  let (oa, wa, ca) = show false in
+  let (ob, _, _) = show true in
+  Printf.sprintf "o=%s w=%s closed=%d reuse=0 alt=%s || spec=ok" oa wa (b2i ca) ob
+
+let () = register "pipeline_arms" run_pipeline_arms
